@@ -45,6 +45,11 @@ public:
   void VarPriorities(ArrayRef<int> p) override;
   ALLOW_STD_FEATURE(LAZY_USER_CUTS, true)
   void MarkLazyOrUserCuts(ArrayRef<int> l) override;
+  /// C09: alternative solutions (sol:stub / sol:count; script line `altsol N`) and model export
+  /// (tech:writemodel / tech:writemodelonly): only active when these options / script lines are used
+  ALLOW_STD_FEATURE(MULTISOL, true)
+  ALLOW_STD_FEATURE(WRITE_PROBLEM, true)
+  void DoWriteProblem(const std::string &name) override;
   ALLOW_STD_FEATURE(IIS, true)
   void ComputeIIS() override {}
   IIS GetIIS() override;
